@@ -55,7 +55,8 @@ def cases(tier, seed):
             out[-1]["big_data"] = True
         if fam == "mvn":
             out[-1]["q_param"] = ["covariance_matrix", "precision_matrix", "scale_tril", "scale_tril_transformed"][(i // len(FAMILIES)) % 4]
-        if i % 4 == 1:
+        if (i % 4 == 1 and fam != "mvn") or (fam == "mvn" and (i // (len(FAMILIES) * 4)) % 2 == 0):
+            # (for the multivariate normal every parameterisation is met with and without such a history)
             out[-1]["q_history"] = True  # q starts somewhere else, is used once, and is then moved to the posterior through its parameters
         if fam == "normal-affine" and i % 2 == 0:
             out[-1]["reversed_keys"] = True  # the transform's arguments written in another order than its constructor takes them
